@@ -248,6 +248,10 @@ class Built:
             self.declare_vars(order or case.get('decl_order'))
             self.sel = [self.term(t) for t in case['sel']]
             conds = [self.cond(c) for c in (case.get('cond') or [])]
+            if case.get('forall'):
+                u, fconds = case['forall']
+                body = [self.cond(c) for c in fconds]
+                conds.append(for_all(self.vars[u], body[0] if len(body) == 1 else and_(*body)))
             if case.get('entity', len(self.sel) == 1):
                 desc = entity(self.sel[0], *conds)
             else:
